@@ -133,6 +133,11 @@ func skolemizeQuant(t *Term, pos bool) *Term {
 		return Not(skolemizeQuant(t.Args[0], !pos))
 	case "=>":
 		return Implies(skolemizeQuant(t.Args[0], !pos), skolemizeQuant(t.Args[1], pos))
+	case "ite":
+		// the condition occurs in both polarities: only quantifier-free conditions are looked through
+		if t.Args[1].Sort == SBool && !hasQuant(t.Args[0], map[*Term]bool{}) {
+			return Ite(t.Args[0], skolemizeQuant(t.Args[1], pos), skolemizeQuant(t.Args[2], pos))
+		}
 	}
 	return t
 }
